@@ -1,3 +1,5 @@
+//go:build go1.25
+
 package props
 
 // Two more concurrent engines for bigbuff.Channel (C13):
